@@ -48,27 +48,28 @@ Proof.
 Qed.
 
 Section Once.
+  Variable q : quirks.
   Variable g : list (bytes * dm).
 
   Definition once_form (f : nat) : Prop :=
     forall seen past ls P n s t,
-      walk g f ls P n s = (t, OOk) ->
-      exists t', cwalk once_ctl g f (nst seen) past ls P n s = (t', OOk, nst (seen_after seen t'))
+      walk q g f ls P n s = (t, OOk) ->
+      exists t', cwalk q once_ctl g f (nst seen) past ls P n s = (t', OOk, nst (seen_after seen t'))
                  /\ subseq t' t /\ loads_fresh seen t'.
 
   Lemma step_once f (IH : once_form f) seen past ls P n s k t :
-    explore_step g (walk g f) ls P n s k = (t, OOk) ->
-    exists t', cexplore_step once_ctl g (cwalk once_ctl g f) ls P n s (nst seen) past k
+    explore_step q g (walk q g f) ls P n s k = (t, OOk) ->
+    exists t', cexplore_step q once_ctl g (cwalk q once_ctl g f) ls P n s (nst seen) past k
                = (t', OOk, nst (seen_after seen t'))
                /\ subseq t' t /\ loads_fresh seen t'.
   Proof.
     unfold explore_step, cexplore_step.
-    destruct (explore s n (fst k)) as [[s'|]| |]; try discriminate.
+    destruct (explore q s n (fst k)) as [[s'|]| |]; try discriminate.
     2:{ intros H; inversion H. exists []. repeat split; constructor. }
     destruct (snd k) eqn:Ek; try (intros H; apply IH; assumption).
     cbn [c_once once_ctl andb c_skip mem_bytes w_seen nst].
     destruct (assoc c g) as [b|]; [|discriminate].
-    destruct (walk g f (c :: ls) (P ++ [fst k]) b s') as [e o] eqn:Ew.
+    destruct (walk q g f (c :: ls) (P ++ [fst k]) b s') as [e o] eqn:Ew.
     intros H; inversion H; subst. clear H.
     destruct (mem_bytes c seen) eqn:Em.
     - exists []. repeat split; constructor.
@@ -83,8 +84,8 @@ Section Once.
 
   Lemma loop_once f (IH : once_form f) ls P n s :
     forall ks seen past reached t,
-      seqk (explore_step g (walk g f) ls P n s) ks = (t, OOk) ->
-      exists t', cloop once_ctl (cexplore_step once_ctl g (cwalk once_ctl g f) ls P n s) P ks (nst seen) past reached
+      seqk (explore_step q g (walk q g f) ls P n s) ks = (t, OOk) ->
+      exists t', cloop once_ctl (cexplore_step q once_ctl g (cwalk q once_ctl g f) ls P n s) P ks (nst seen) past reached
                  = (t', OOk, nst (seen_after seen t'))
                  /\ subseq t' t /\ loads_fresh seen t'.
   Proof.
@@ -111,7 +112,7 @@ Section Once.
       assert (Hf : forall sn r, loads_fresh sn r -> loads_fresh sn (visit_event P n s ls :: r))
         by (intros sn r; unfold visit_event; destruct (match_sel s n); cbn; auto).
       destruct (is_container n).
-      + destruct (seqk (explore_step g (walk g f) ls P n s) (children n s)) as [e o] eqn:Es.
+      + destruct (seqk (explore_step q g (walk q g f) ls P n s) (children q n s)) as [e o] eqn:Es.
         inversion H; subst. clear H.
         fold (nst seen).
         destruct (loop_once f IH ls P n s _ seen past false e Es) as (t' & Hc & Hs & Hfr). rewrite Hc.
@@ -124,13 +125,13 @@ Section Once.
   Qed.
 End Once.
 
-Theorem once_run g f root s t :
-  walk_adv g f root s = (t, OOk) ->
-  exists t', cwalk_adv once_ctl g f None root s = (t', OOk)
+Theorem once_run q g f root s t :
+  walk_adv q g f root s = (t, OOk) ->
+  exists t', cwalk_adv q once_ctl g f None root s = (t', OOk)
              /\ subseq t' t /\ subseq (visits t') (visits t) /\ NoDup (load_cids t').
 Proof.
   intros H. unfold cwalk_adv. change {| w_budget := None; w_seen := [] |} with (nst []).
-  destruct (once_closed_form g f [] false [] [] root s t H) as (t' & Hc & Hs & Hf).
+  destruct (once_closed_form q g f [] false [] [] root s t H) as (t' & Hc & Hs & Hf).
   exists t'. rewrite Hc. repeat split; auto.
   - apply subseq_filter; exact Hs.
   - apply (loads_fresh_nodup t' [] Hf).
